@@ -1,11 +1,656 @@
-//! C26 — not built yet (see DESIGN.md §5 C26).
+//! C26 — access control is complete and follows the GRANT/REVOKE history (DESIGN §5 C26).
+//!
+//! Space: security enabled; all histories (BFS with state merging + a stateless guard pass) of
+//! CREATE ROLE / GRANT / REVOKE statements executed as ADMIN over roles R1, R2, tables t, u and a
+//! view v; in every reached state every statement of a menu (one per access path that can read or
+//! write a table) is executed under role R1 on a private clone.
+//!
+//! Oracle: a privilege-matrix model driven by the same history (a GRANT/REVOKE takes effect in the
+//! model iff the engine accepted it). For every (state, statement):
+//!   * the statement succeeded  =>  the model holds every privilege it needs (SELECT on every
+//!     table whose rows it reads — for a view: on the tables behind it —, INSERT/UPDATE/DELETE on
+//!     its target);
+//!   * the model lacks one of them  =>  the statement failed **and** tables + catalog are unchanged.
+//! The converse (a privileged statement is wrongly denied) is not demanded.
 
-pub fn run(_tier: &str) -> i32 {
-    eprintln!("MACHINERY-ERROR C26 is not built yet");
-    2
+use std::collections::{BTreeMap, BTreeSet};
+use std::sync::atomic::{AtomicU64, Ordering};
+use std::sync::Mutex;
+
+use serde_json::{json, Value};
+use vibesql_storage::Database;
+
+use vcore::exec::{self, Out};
+use vcore::histmc::{self, Caps, Node, Spec};
+use vcore::obs;
+use vcore::report::Report;
+
+pub const PRELUDE: &[&str] = &[
+    "CREATE TABLE t (a INT, b INT)",
+    "CREATE TABLE u (a INT, b INT)",
+    "CREATE INDEX iu ON u (a)",
+    "CREATE VIEW v AS SELECT a, b FROM u",
+    "INSERT INTO t VALUES (1, 10), (2, 20)",
+    "INSERT INTO u VALUES (1, 100), (3, 300)",
+    "CREATE TABLE w (a INT PRIMARY KEY, b INT)",
+    "INSERT INTO w VALUES (1, 10)",
+    "CREATE ROLE R1",
+];
+
+#[derive(Clone, Copy, Debug, PartialEq, Eq, PartialOrd, Ord)]
+pub enum P {
+    Select,
+    Insert,
+    Update,
+    Delete,
 }
 
-pub fn replay(_case: &serde_json::Value) -> i32 {
-    eprintln!("MACHINERY-ERROR C26 is not built yet");
-    2
+impl P {
+    fn name(self) -> &'static str {
+        match self {
+            P::Select => "SELECT",
+            P::Insert => "INSERT",
+            P::Update => "UPDATE",
+            P::Delete => "DELETE",
+        }
+    }
+}
+
+const ALL: &[P] = &[P::Select, P::Insert, P::Update, P::Delete];
+
+/// What an accepted admin statement does to the privilege matrix.
+#[derive(Clone, Debug)]
+pub enum Effect {
+    /// grant `privs` on `table` (`cols` = column-level grant) to `role`
+    Grant { role: &'static str, table: &'static str, privs: &'static [P], cols: Option<&'static [&'static str]> },
+    /// revoke table-level `privs`
+    Revoke { role: &'static str, table: &'static str, privs: &'static [P] },
+    /// the privilege itself stays (REVOKE GRANT OPTION FOR, column-level REVOKE: over-approximated)
+    Nothing,
+}
+
+pub struct AdminOp {
+    pub sql: String,
+    pub effect: Effect,
+}
+
+/// Sub-alphabet for the deeper focused searches: every statement that names `role` and `table`.
+pub fn focused(alpha: Vec<AdminOp>, role: &str, table: &str) -> Vec<AdminOp> {
+    let on = format!(" ON {} ", table);
+    alpha.into_iter().filter(|o| o.sql.contains(&on) && o.sql.split_whitespace().any(|w| w.trim_end_matches(',') == role)).collect()
+}
+
+pub fn admin_alphabet(thorough: bool) -> Vec<AdminOp> {
+    let mut a = vec![];
+    a.push(AdminOp { sql: "CREATE ROLE R2".into(), effect: Effect::Nothing });
+    let one: [(&str, &'static [P]); 5] = [
+        ("SELECT", &[P::Select]),
+        ("INSERT", &[P::Insert]),
+        ("UPDATE", &[P::Update]),
+        ("DELETE", &[P::Delete]),
+        ("ALL PRIVILEGES", ALL),
+    ];
+    for role in ["R1", "R2"] {
+        for table in ["t", "u"] {
+            for (name, privs) in one.iter() {
+                // R2 only needs enough to show that grants to another role do not leak
+                if role == "R2" && !thorough && !matches!(*name, "SELECT" | "ALL PRIVILEGES") {
+                    continue;
+                }
+                a.push(AdminOp { sql: format!("GRANT {} ON {} TO {}", name, table, role), effect: Effect::Grant { role, table, privs, cols: None } });
+                a.push(AdminOp { sql: format!("REVOKE {} ON {} FROM {}", name, table, role), effect: Effect::Revoke { role, table, privs } });
+            }
+        }
+    }
+    // the keyed table w (conflict-resolving INSERT forms): R1 only
+    for (name, privs) in one.iter() {
+        if *name == "SELECT" {
+            continue;
+        }
+        a.push(AdminOp { sql: format!("GRANT {} ON w TO R1", name), effect: Effect::Grant { role: "R1", table: "w", privs, cols: None } });
+        if thorough || *name == "ALL PRIVILEGES" {
+            a.push(AdminOp { sql: format!("REVOKE {} ON w FROM R1", name), effect: Effect::Revoke { role: "R1", table: "w", privs } });
+        }
+    }
+    // grant option / its revocation (the privilege itself stays), cascade
+    a.push(AdminOp { sql: "GRANT SELECT ON u TO R1 WITH GRANT OPTION".into(), effect: Effect::Grant { role: "R1", table: "u", privs: &[P::Select], cols: None } });
+    a.push(AdminOp { sql: "REVOKE GRANT OPTION FOR SELECT ON u FROM R1".into(), effect: Effect::Nothing });
+    a.push(AdminOp { sql: "REVOKE SELECT ON u FROM R1 CASCADE".into(), effect: Effect::Revoke { role: "R1", table: "u", privs: &[P::Select] } });
+    // the view (the engine has no view privileges: whatever it answers, nothing on u is granted)
+    a.push(AdminOp { sql: "GRANT SELECT ON v TO R1".into(), effect: Effect::Nothing });
+    // column-level grants
+    a.push(AdminOp { sql: "GRANT SELECT (a) ON u TO R1".into(), effect: Effect::Grant { role: "R1", table: "u", privs: &[P::Select], cols: Some(&["a"]) } });
+    a.push(AdminOp { sql: "GRANT UPDATE (a) ON t TO R1".into(), effect: Effect::Grant { role: "R1", table: "t", privs: &[P::Update], cols: Some(&["a"]) } });
+    if thorough {
+        a.push(AdminOp { sql: "REVOKE SELECT (a) ON u FROM R1".into(), effect: Effect::Nothing });
+        a.push(AdminOp { sql: "GRANT SELECT ON t, u TO R1".into(), effect: Effect::Nothing }); // not valid SQL here: must not grant anything if rejected
+        a.push(AdminOp { sql: "GRANT SELECT ON u TO R1, R2".into(), effect: Effect::Grant { role: "R1", table: "u", privs: &[P::Select], cols: None } });
+    }
+    a
+}
+
+/// One needed privilege: `p` on `table`, for the columns `cols` the statement touches there
+/// (empty = no particular column, e.g. COUNT(*): a privilege on any column suffices).
+#[derive(Clone, Copy)]
+pub struct Need {
+    pub p: P,
+    pub table: &'static str,
+    pub cols: &'static [&'static str],
+}
+
+const AB: &[&str] = &["a", "b"];
+const A_: &[&str] = &["a"];
+const B_: &[&str] = &["b"];
+const ANY: &[&str] = &[];
+
+const fn sel(table: &'static str, cols: &'static [&'static str]) -> Need {
+    Need { p: P::Select, table, cols }
+}
+const fn ins(table: &'static str) -> Need {
+    Need { p: P::Insert, table, cols: AB }
+}
+const fn upd(table: &'static str, cols: &'static [&'static str]) -> Need {
+    Need { p: P::Update, table, cols }
+}
+const fn del(table: &'static str) -> Need {
+    Need { p: P::Delete, table, cols: AB }
+}
+
+/// (label, sql, needs). One element per access path through which a statement can reach a table.
+pub const MENU: &[(&str, &str, &[Need])] = &[
+    // ---- reading u
+    ("scan", "SELECT a, b FROM u", &[sel("u", AB)]),
+    ("scan-one-column-a", "SELECT a FROM u", &[sel("u", A_)]),
+    ("scan-one-column-b", "SELECT b FROM u", &[sel("u", B_)]),
+    ("star", "SELECT * FROM u", &[sel("u", AB)]),
+    ("index-point", "SELECT b FROM u WHERE a = 1", &[sel("u", AB)]),
+    ("index-range-ordered", "SELECT b FROM u WHERE a > 0 ORDER BY a", &[sel("u", AB)]),
+    ("order-by-index", "SELECT a FROM u ORDER BY a", &[sel("u", A_)]),
+    ("count-star", "SELECT COUNT(*) FROM u", &[sel("u", ANY)]),
+    ("count-star-where", "SELECT COUNT(*) FROM u WHERE b > 0", &[sel("u", AB)]),
+    ("aggregates", "SELECT SUM(b), MIN(a) FROM u", &[sel("u", AB)]),
+    ("aggregate-where", "SELECT SUM(b) FROM u WHERE a > 0", &[sel("u", AB)]),
+    ("group-by", "SELECT a, COUNT(*) FROM u GROUP BY a", &[sel("u", A_)]),
+    ("distinct", "SELECT DISTINCT b FROM u", &[sel("u", B_)]),
+    ("limit", "SELECT a FROM u LIMIT 1", &[sel("u", A_)]),
+    ("alias", "SELECT z.a FROM u AS z", &[sel("u", A_)]),
+    ("qualified-name", "SELECT a FROM \"public\".u", &[sel("u", A_)]),
+    ("derived-table", "SELECT x.a FROM (SELECT a FROM u) AS x", &[sel("u", A_)]),
+    ("cte", "WITH w AS (SELECT a FROM u) SELECT a FROM w", &[sel("u", A_)]),
+    ("view", "SELECT a FROM v", &[sel("u", AB)]),
+    ("view-aggregate", "SELECT COUNT(*) FROM v", &[sel("u", AB)]),
+    ("no-from-scalar-subquery", "SELECT (SELECT COUNT(*) FROM u)", &[sel("u", ANY)]),
+    ("no-from-exists", "SELECT EXISTS (SELECT 1 FROM u WHERE a = 1)", &[sel("u", A_)]),
+    // ---- reading t and u
+    ("join", "SELECT t.a, u.b FROM t JOIN u ON t.a = u.a", &[sel("t", A_), sel("u", AB)]),
+    ("comma-join", "SELECT t.a FROM t, u WHERE t.a = u.a", &[sel("t", A_), sel("u", A_)]),
+    ("left-join", "SELECT t.a, u.b FROM t LEFT JOIN u ON t.a = u.a", &[sel("t", A_), sel("u", AB)]),
+    ("cross-join", "SELECT t.a FROM t CROSS JOIN u", &[sel("t", A_), sel("u", ANY)]),
+    ("in-subquery", "SELECT a FROM t WHERE a IN (SELECT a FROM u)", &[sel("t", A_), sel("u", A_)]),
+    ("in-subquery-under-or", "SELECT a FROM t WHERE a = 0 OR a IN (SELECT a FROM u)", &[sel("t", A_), sel("u", A_)]),
+    ("in-subquery-select-list", "SELECT a IN (SELECT a FROM u) FROM t", &[sel("t", A_), sel("u", A_)]),
+    ("in-subquery-where", "SELECT a FROM t WHERE a IN (SELECT a FROM u WHERE a > 0)", &[sel("t", A_), sel("u", A_)]),
+    ("in-subquery-case", "SELECT CASE WHEN a IN (SELECT a FROM u) THEN 1 ELSE 0 END FROM t", &[sel("t", A_), sel("u", A_)]),
+    ("in-subquery-having", "SELECT a FROM t GROUP BY a HAVING a IN (SELECT a FROM u)", &[sel("t", A_), sel("u", A_)]),
+    ("in-subquery-join-on", "SELECT t.a FROM t JOIN t AS t2 ON t.a = t2.a AND t.a IN (SELECT a FROM u)", &[sel("t", A_), sel("u", A_)]),
+    ("in-subquery-join-where-or", "SELECT t.a FROM t, t AS t2 WHERE t.a = t2.a AND (t2.b = 0 OR t.a IN (SELECT a FROM u))", &[sel("t", AB), sel("u", A_)]),
+    ("in-subquery-no-from", "SELECT 1 IN (SELECT a FROM u)", &[sel("u", A_)]),
+    ("in-subquery-order-by", "SELECT a FROM t ORDER BY a IN (SELECT a FROM u)", &[sel("t", A_), sel("u", A_)]),
+    ("not-in-subquery-order-by", "SELECT a FROM t ORDER BY a NOT IN (SELECT a FROM u WHERE a > 0), a", &[sel("t", A_), sel("u", A_)]),
+    ("not-in-subquery", "SELECT a FROM t WHERE a NOT IN (SELECT a FROM u)", &[sel("t", A_), sel("u", A_)]),
+    ("exists", "SELECT a FROM t WHERE EXISTS (SELECT 1 FROM u WHERE u.a = t.a)", &[sel("t", A_), sel("u", A_)]),
+    ("not-exists", "SELECT a FROM t WHERE NOT EXISTS (SELECT 1 FROM u WHERE u.a = t.a)", &[sel("t", A_), sel("u", A_)]),
+    ("scalar-subquery", "SELECT a, (SELECT MAX(b) FROM u) FROM t", &[sel("t", A_), sel("u", B_)]),
+    ("scalar-count-subquery", "SELECT a, (SELECT COUNT(*) FROM u) FROM t", &[sel("t", A_), sel("u", ANY)]),
+    ("scalar-subquery-where", "SELECT a FROM t WHERE b > (SELECT MAX(b) FROM u)", &[sel("t", AB), sel("u", B_)]),
+    ("quantified", "SELECT a FROM t WHERE a > ALL (SELECT a FROM u)", &[sel("t", A_), sel("u", A_)]),
+    ("union-right", "SELECT a FROM t UNION SELECT a FROM u", &[sel("t", A_), sel("u", A_)]),
+    ("union-left", "SELECT a FROM u UNION ALL SELECT a FROM t", &[sel("t", A_), sel("u", A_)]),
+    ("except-right", "SELECT a FROM t EXCEPT SELECT a FROM u", &[sel("t", A_), sel("u", A_)]),
+    ("having-subquery", "SELECT a FROM t GROUP BY a HAVING a > (SELECT MIN(a) FROM u)", &[sel("t", A_), sel("u", A_)]),
+    ("join-using", "SELECT t.b FROM t JOIN u USING (a)", &[sel("t", AB), sel("u", A_)]),
+    ("natural-join", "SELECT t.a FROM t NATURAL JOIN u", &[sel("t", AB), sel("u", AB)]),
+    ("right-join", "SELECT u.b FROM t RIGHT JOIN u ON t.a = u.a", &[sel("t", A_), sel("u", AB)]),
+    ("qualified-star-join", "SELECT u.* FROM t, u", &[sel("t", ANY), sel("u", AB)]),
+    ("any-subquery", "SELECT a FROM t WHERE a = ANY (SELECT a FROM u)", &[sel("t", A_), sel("u", A_)]),
+    ("correlated-scalar", "SELECT a, (SELECT b FROM u WHERE u.a = t.a) FROM t", &[sel("t", A_), sel("u", AB)]),
+    ("window-over-u", "SELECT a, SUM(b) OVER () FROM u", &[sel("u", AB)]),
+    ("derived-join", "SELECT t.a FROM t JOIN (SELECT a FROM u) AS x ON x.a = t.a", &[sel("t", A_), sel("u", A_)]),
+    ("cte-in-subquery", "WITH w AS (SELECT a FROM u) SELECT a FROM t WHERE a IN (SELECT a FROM w)", &[sel("t", A_), sel("u", A_)]),
+    ("union-in-derived", "SELECT x.a FROM (SELECT a FROM t UNION ALL SELECT a FROM u) AS x", &[sel("t", A_), sel("u", A_)]),
+    // ---- writing t (reading u)
+    ("insert-values", "INSERT INTO t VALUES (7, 70)", &[ins("t")]),
+    ("insert-values-multi", "INSERT INTO t VALUES (7, 70), (8, 80)", &[ins("t")]),
+    ("insert-select-bulk", "INSERT INTO t SELECT * FROM u", &[ins("t"), sel("u", AB)]),
+    ("insert-select-column-list", "INSERT INTO t (a, b) SELECT a, b FROM u", &[ins("t"), sel("u", AB)]),
+    ("insert-select-where", "INSERT INTO t SELECT * FROM u WHERE a > 0", &[ins("t"), sel("u", AB)]),
+    ("insert-values-subquery", "INSERT INTO t VALUES ((SELECT MAX(a) FROM u), 0)", &[ins("t"), sel("u", A_)]),
+    ("update", "UPDATE t SET b = 0 WHERE a = 1", &[upd("t", B_)]),
+    ("update-all", "UPDATE t SET b = b + 1", &[upd("t", B_)]),
+    ("update-where-subquery", "UPDATE t SET b = 0 WHERE a IN (SELECT a FROM u)", &[upd("t", B_), sel("u", A_)]),
+    ("update-set-subquery", "UPDATE t SET b = (SELECT MAX(b) FROM u)", &[upd("t", B_), sel("u", B_)]),
+    ("update-where-exists", "UPDATE t SET b = 0 WHERE EXISTS (SELECT 1 FROM u WHERE u.a = t.a)", &[upd("t", B_), sel("u", A_)]),
+    ("update-set-correlated", "UPDATE t SET b = (SELECT b FROM u WHERE u.a = t.a)", &[upd("t", B_), sel("u", AB)]),
+    ("delete-where-scalar", "DELETE FROM t WHERE (SELECT COUNT(*) FROM u) > 0", &[del("t"), sel("u", ANY)]),
+    ("insert-select-union", "INSERT INTO t SELECT a, b FROM t UNION ALL SELECT a, b FROM u", &[ins("t"), sel("t", AB), sel("u", AB)]),
+    ("insert-select-partial-columns", "INSERT INTO t (a) SELECT a FROM u", &[ins("t"), sel("u", A_)]),
+    ("insert-select-join", "INSERT INTO t SELECT t.a, u.b FROM t JOIN u ON t.a = u.a", &[ins("t"), sel("t", A_), sel("u", AB)]),
+    ("update-set-in-subquery", "UPDATE t SET b = CASE WHEN a IN (SELECT a FROM u) THEN 1 ELSE 0 END", &[upd("t", B_), sel("u", A_)]),
+    ("delete", "DELETE FROM t WHERE a = 1", &[del("t")]),
+    ("delete-all", "DELETE FROM t", &[del("t")]),
+    ("delete-where-subquery", "DELETE FROM t WHERE a IN (SELECT a FROM u)", &[del("t"), sel("u", A_)]),
+    ("delete-where-exists", "DELETE FROM t WHERE EXISTS (SELECT 1 FROM u WHERE u.a = t.a)", &[del("t"), sel("u", A_)]),
+    ("truncate", "TRUNCATE TABLE t", &[del("t")]),
+    // ---- conflict-resolving INSERT forms on the keyed table w = {(1, 10)}
+    ("insert-keyed", "INSERT INTO w VALUES (3, 0)", &[ins("w")]),
+    ("upsert-updates-existing-row", "INSERT INTO w VALUES (1, 0) ON DUPLICATE KEY UPDATE b = 5", &[ins("w"), upd("w", B_)]),
+    ("upsert-inserts-new-row", "INSERT INTO w VALUES (2, 0) ON DUPLICATE KEY UPDATE b = 5", &[ins("w")]),
+    ("replace-removes-existing-row", "REPLACE INTO w VALUES (1, 99)", &[ins("w"), del("w")]),
+    ("replace-inserts-new-row", "REPLACE INTO w VALUES (2, 99)", &[ins("w")]),
+    // ---- the other direction: privileges on t must not open u
+    ("insert-values-u", "INSERT INTO u VALUES (7, 700)", &[ins("u")]),
+    ("update-u", "UPDATE u SET b = 0 WHERE a = 1", &[upd("u", B_)]),
+    ("delete-u", "DELETE FROM u WHERE a = 1", &[del("u")]),
+    ("truncate-u", "TRUNCATE TABLE u", &[del("u")]),
+    ("insert-select-into-u", "INSERT INTO u SELECT * FROM t", &[ins("u"), sel("t", AB)]),
+];
+
+/// Privilege matrix: (role, table, privilege) -> None = whole table | Some(columns)
+#[derive(Clone, Default, PartialEq, Eq, Debug)]
+pub struct Model {
+    table: BTreeSet<(String, String, P)>,
+    cols: BTreeSet<(String, String, P, String)>,
+}
+
+impl Model {
+    pub fn apply(&mut self, e: &Effect) {
+        match e {
+            Effect::Grant { role, table, privs, cols } => {
+                for p in privs.iter() {
+                    match cols {
+                        None => {
+                            self.table.insert((role.to_string(), table.to_string(), *p));
+                        }
+                        Some(cs) => {
+                            for c in cs.iter() {
+                                self.cols.insert((role.to_string(), table.to_string(), *p, c.to_string()));
+                            }
+                        }
+                    }
+                }
+            }
+            Effect::Revoke { role, table, privs } => {
+                for p in privs.iter() {
+                    self.table.remove(&(role.to_string(), table.to_string(), *p));
+                }
+            }
+            Effect::Nothing => {}
+        }
+    }
+    pub fn holds(&self, role: &str, n: &Need) -> bool {
+        if self.table.contains(&(role.to_string(), n.table.to_string(), n.p)) {
+            return true;
+        }
+        if n.cols.is_empty() {
+            return self.cols.iter().any(|(r, t, p, _)| r == role && t == n.table && *p == n.p);
+        }
+        n.cols.iter().all(|c| self.cols.contains(&(role.to_string(), n.table.to_string(), n.p, c.to_string())))
+    }
+    pub fn missing(&self, role: &str, needs: &[Need]) -> Vec<String> {
+        needs.iter().filter(|n| !self.holds(role, n)).map(|n| format!("{}:{}", n.p.name(), n.table)).collect()
+    }
+    fn key(&self) -> String {
+        format!("{:?}|{:?}", self.table, self.cols)
+    }
+}
+
+fn init_db() -> Database {
+    let mut db = exec::fresh(PRELUDE);
+    db.enable_security();
+    db.set_role(Some("ADMIN".to_string()));
+    db
+}
+
+/// Observable state for "a denied statement changes nothing": tables (schema + row bags) and catalog,
+/// canonical (map entries sorted).
+fn observe(db: &Database) -> String {
+    obs::obs_state_opts(db, false, false)
+}
+
+/// Cheap pre-filter: raw Debug text of the tables' rows and of the catalog. Equal raw text implies
+/// equal observable state; unequal raw text is decided by the canonical observation.
+fn observe_raw(db: &Database) -> String {
+    let mut s = String::new();
+    for key in obs::table_keys(db) {
+        s.push_str(&key);
+        s.push_str(&format!("{:?}", db.tables[&key].scan()));
+    }
+    s.push_str(&format!("{:?}", db.catalog));
+    s
+}
+
+pub struct Before {
+    raw: String,
+    canon: std::cell::OnceCell<String>,
+}
+
+impl Before {
+    fn of(db: &Database) -> Self {
+        Before { raw: observe_raw(db), canon: std::cell::OnceCell::new() }
+    }
+}
+
+/// Execute one menu statement under `role` on a clone; returns (outcome, changed?)
+fn run_as(db: &Database, before: &Before, role: &str, sql: &str) -> (Out, bool) {
+    let mut c = db.clone();
+    c.set_role(Some(role.to_string()));
+    let out = exec::exec(&mut c, sql);
+    c.set_role(Some("ADMIN".to_string()));
+    let changed = if observe_raw(&c) == before.raw { false } else { observe(&c) != *before.canon.get_or_init(|| observe(db)) };
+    (out, changed)
+}
+
+/// From scratch: prelude, admin history, then the statement under R1. Returns (class, changed, model-missing).
+fn from_scratch(alpha: &[AdminOp], hist: &[String], sql: &str) -> (String, bool, Vec<String>, Out) {
+    let mut db = init_db();
+    let mut m = Model::default();
+    for h in hist {
+        let out = exec::exec(&mut db, h);
+        if out.is_ok() {
+            if let Some(op) = alpha.iter().find(|o| o.sql == *h) {
+                m.apply(&op.effect);
+            }
+        }
+    }
+    let before = Before::of(&db);
+    let (out, changed) = run_as(&db, &before, "R1", sql);
+    let needs = MENU.iter().find(|(_, s, _)| *s == sql).map(|(_, _, n)| *n).unwrap_or(&[]);
+    (out.class().to_string(), changed, m.missing("R1", needs), out)
+}
+
+#[derive(Default)]
+struct StmtStat {
+    ok_privileged: u64,
+    err_privileged: u64,
+    denied: u64,
+    ok_unprivileged: u64,
+}
+
+struct AclSpec {
+    alpha: Vec<AdminOp>,
+    evaluations: AtomicU64,
+    stats: Mutex<BTreeMap<&'static str, StmtStat>>,
+    outcomes: Mutex<BTreeSet<String>>,
+    /// merged search: run the menu once per distinct state (key = Database fingerprint + model);
+    /// guard search: run it after every transition
+    once_per_state: std::sync::atomic::AtomicBool,
+    checked: Mutex<std::collections::HashSet<u128>>,
+    states_checked: AtomicU64,
+}
+
+impl AclSpec {
+    /// run the whole menu under R1 in this state
+    fn check_state(&self, db: &Database, m: &Model, hist: &[String], rep: &Report) {
+        let before = Before::of(db);
+        let mut local: Vec<(&'static str, u8)> = Vec::with_capacity(MENU.len());
+        for (label, sql, needs) in MENU {
+            let (out, changed) = run_as(db, &before, "R1", sql);
+            self.evaluations.fetch_add(1, Ordering::Relaxed);
+            let missing = m.missing("R1", needs);
+            let ok = out.is_ok();
+            local.push((label, match (ok, missing.is_empty()) {
+                (true, true) => 0,
+                (false, true) => 1,
+                (false, false) => 2,
+                (true, false) => 3,
+            }));
+            if missing.is_empty() {
+                continue;
+            }
+            let kind = if ok {
+                Some("succeeded-without-privilege")
+            } else if changed {
+                Some("denied-but-changed")
+            } else {
+                None
+            };
+            if let Some(kind) = kind {
+                // confirm twice from scratch
+                let a = from_scratch(&self.alpha, hist, sql);
+                let b = from_scratch(&self.alpha, hist, sql);
+                let same = a.0 == b.0 && a.1 == b.1 && a.2 == b.2;
+                let reproduces = same && a.2 == missing && (a.0 == "ok") == ok && a.1 == changed;
+                if !reproduces {
+                    rep.machinery_error(format!(
+                        "C26: case did not reproduce from scratch: hist={:?} stmt={} search=({},{},{:?}) replay1=({},{},{:?}) replay2=({},{},{:?})",
+                        hist, sql, out.class(), changed, missing, a.0, a.1, a.2, b.0, b.1, b.2
+                    ));
+                    continue;
+                }
+                let mut steps: Vec<String> = vec!["#ROLE ADMIN".into()];
+                steps.extend(hist.iter().cloned());
+                steps.push("#ROLE R1".into());
+                steps.push(sql.to_string());
+                rep.violation(
+                    &[("kind", kind.to_string()), ("stmt", label.to_string()), ("missing", missing.join("+"))],
+                    format!(
+                        "under role R1 after {:?}: `{}` => {}{}; the GRANT/REVOKE history gives R1 no {}",
+                        hist,
+                        sql,
+                        out.brief(),
+                        if changed { " and the database changed" } else { "" },
+                        missing.join(", ")
+                    ),
+                    json!({"security": true, "prelude": PRELUDE, "history": hist, "statement": sql, "steps": steps}),
+                );
+            }
+        }
+        let mut st = self.stats.lock().unwrap();
+        for (label, k) in local {
+            let e = st.entry(label).or_default();
+            match k {
+                0 => e.ok_privileged += 1,
+                1 => e.err_privileged += 1,
+                2 => e.denied += 1,
+                _ => e.ok_unprivileged += 1,
+            }
+        }
+    }
+}
+
+impl Spec for AclSpec {
+    type M = Model;
+
+    fn init(&self) -> Vec<Node<Model>> {
+        vec![Node { db: init_db(), model: Model::default(), hist: vec![] }]
+    }
+
+    fn alphabet(&self, _db: &Database, _m: &Model, _h: &[String]) -> Vec<String> {
+        self.alpha.iter().map(|o| o.sql.clone()).collect()
+    }
+
+    fn step(&self, _pre: &Database, m: &Model, op: &str, post: &Database, out: &Out, hist: &[String], rep: &Report) -> Option<Model> {
+        let mut m2 = m.clone();
+        if out.is_ok() {
+            if let Some(o) = self.alpha.iter().find(|o| o.sql == op) {
+                m2.apply(&o.effect);
+            }
+        }
+        self.outcomes.lock().unwrap().insert(format!("{}=>{}", op, out.class()));
+        let fresh = if self.once_per_state.load(Ordering::Relaxed) {
+            let mut k = vcore::fp::canon(post);
+            k.push('\u{1}');
+            k.push_str(&m2.key());
+            self.checked.lock().unwrap().insert(vcore::util::hash128(k.as_bytes()))
+        } else {
+            true
+        };
+        if fresh {
+            self.states_checked.fetch_add(1, Ordering::Relaxed);
+            self.check_state(post, &m2, hist, rep);
+        }
+        Some(m2)
+    }
+
+    fn model_key(&self, m: &Model) -> String {
+        m.key()
+    }
+}
+
+pub fn run(tier: &str) -> i32 {
+    let mut rep = Report::new("C26", tier, "model_checking");
+    vibesql_types::verif::reset();
+    let thorough = tier == "thorough";
+    let (depth, guard_depth) = if thorough { (3, 2) } else { (2, 1) };
+    let caps = Caps { max_states: 3_000_000, max_secs: 3000.0 };
+
+    let mk = |alpha: Vec<AdminOp>| AclSpec {
+        alpha,
+        evaluations: AtomicU64::new(0),
+        stats: Mutex::new(BTreeMap::new()),
+        outcomes: Mutex::new(BTreeSet::new()),
+        once_per_state: std::sync::atomic::AtomicBool::new(true),
+        checked: Mutex::new(std::collections::HashSet::new()),
+        states_checked: AtomicU64::new(0),
+    };
+    let spec = AclSpec {
+        alpha: admin_alphabet(thorough),
+        evaluations: AtomicU64::new(0),
+        stats: Mutex::new(BTreeMap::new()),
+        outcomes: Mutex::new(BTreeSet::new()),
+        once_per_state: std::sync::atomic::AtomicBool::new(false),
+        checked: Mutex::new(std::collections::HashSet::new()),
+        states_checked: AtomicU64::new(0),
+    };
+    // the initial state (no grants at all) is a state too
+    {
+        let n = &spec.init()[0];
+        spec.check_state(&n.db, &n.model, &[], &rep);
+    }
+    let st_guard = histmc::bfs(&spec, guard_depth, false, &rep, &caps);
+    spec.once_per_state.store(true, Ordering::Relaxed);
+    let st = histmc::bfs(&spec, depth, true, &rep, &caps);
+
+    // deeper searches over the statements that concern one (role, table) pair
+    let focus_depth = if thorough { 4 } else { 3 };
+    let mut focus_json = vec![];
+    let mut focus_specs = vec![];
+    let pairs: &[(&str, &str)] = if thorough { &[("R1", "u"), ("R1", "t"), ("R1", "w")] } else { &[("R1", "u")] };
+    for (role, table) in pairs.iter().copied() {
+        let fs = mk(focused(admin_alphabet(thorough), role, table));
+        let st = histmc::bfs(&fs, focus_depth, true, &rep, &caps);
+        focus_json.push(json!({"role": role, "table": table, "alphabet": fs.alpha.len(), "depth": focus_depth, "depth_completed": st.depth_completed,
+            "states": st.states, "transitions": st.transitions, "capped": st.capped, "menu_evaluations": fs.evaluations.load(Ordering::Relaxed)}));
+        focus_specs.push((fs, st));
+    }
+
+    // the focused searches run after the full one (order: shortest witnesses of the full space first)
+    histmc::stats_into(&mut rep, "full_", &st);
+    histmc::stats_into(&mut rep, "stateless_guard_", &st_guard);
+    let mut evals = spec.evaluations.load(Ordering::Relaxed);
+    let mut states = st.states;
+    let mut transitions = st.transitions;
+    let mut states_checked = spec.states_checked.load(Ordering::Relaxed) + 1;
+    let mut capped = st.capped || st_guard.capped || st.depth_completed < depth;
+    for (fs, fst) in &focus_specs {
+        evals += fs.evaluations.load(Ordering::Relaxed);
+        states += fst.states;
+        transitions += fst.transitions;
+        states_checked += fs.states_checked.load(Ordering::Relaxed);
+        capped |= fst.capped || fst.depth_completed < focus_depth;
+        let mut tgt = spec.stats.lock().unwrap();
+        for (k, v) in fs.stats.lock().unwrap().iter() {
+            let e = tgt.entry(k).or_default();
+            e.ok_privileged += v.ok_privileged;
+            e.err_privileged += v.err_privileged;
+            e.denied += v.denied;
+            e.ok_unprivileged += v.ok_unprivileged;
+        }
+        spec.outcomes.lock().unwrap().extend(fs.outcomes.lock().unwrap().iter().cloned());
+    }
+    rep.set("states", json!(states));
+    rep.set("transitions", json!(transitions));
+    rep.set("focused_searches", json!(focus_json));
+    rep.set("menu_evaluations", json!(evals));
+    rep.set("states_in_which_the_menu_ran", json!(states_checked));
+    rep.set("traces_validated_against_impl", json!(transitions + st_guard.transitions + evals));
+    rep.set("admin_alphabet", json!(spec.alpha.len()));
+    rep.set("menu_size", json!(MENU.len()));
+    rep.set("exhaustive", json!(!capped));
+    rep.set("samples", json!(st.samples));
+    let stats = spec.stats.lock().unwrap();
+    let mut per_stmt = serde_json::Map::new();
+    let mut never_ok: Vec<&str> = vec![];
+    let mut never_denied: Vec<&str> = vec![];
+    let (mut ok_p, mut err_p, mut denied, mut ok_u) = (0u64, 0u64, 0u64, 0u64);
+    for (label, _, _) in MENU {
+        let z = StmtStat::default();
+        let s = stats.get(label).unwrap_or(&z);
+        per_stmt.insert(
+            label.to_string(),
+            json!({"ok_with_privileges": s.ok_privileged, "error_with_privileges": s.err_privileged, "failed_without_privileges": s.denied, "ok_without_privileges": s.ok_unprivileged}),
+        );
+        if s.ok_privileged == 0 {
+            never_ok.push(label);
+        }
+        if s.denied == 0 {
+            never_denied.push(label);
+        }
+        ok_p += s.ok_privileged;
+        err_p += s.err_privileged;
+        denied += s.denied;
+        ok_u += s.ok_unprivileged;
+    }
+    rep.set("per_statement", Value::Object(per_stmt));
+    rep.set("menu_outcomes", json!({"ok_with_privileges": ok_p, "error_with_privileges": err_p, "failed_without_privileges": denied, "ok_without_privileges": ok_u}));
+    rep.set("statements_never_successful_even_when_privileged", json!(never_ok));
+    rep.set("statements_never_denied", json!(never_denied));
+    rep.set("distinct_admin_outcomes", json!(spec.outcomes.lock().unwrap().len()));
+    let (reach, vac) = vcore::report::reach_json(&["bulk_transfer", "in_subquery_index", "index_scan", "columnar_path"]);
+    rep.set("reach", reach);
+    rep.set("vacuous_mechanisms", vac);
+    rep.set(
+        "rule",
+        json!("BFS over all CREATE ROLE/GRANT/REVOKE histories (as ADMIN, security enabled) on the real Database, states merged on the Database fingerprint + privilege-matrix model; in every reached state every menu statement runs under role R1 on a clone: success requires every needed privilege in the model, a missing privilege requires failure with tables and catalog unchanged"),
+    );
+    rep.assume("a GRANT/REVOKE takes effect in the model iff the engine accepted it; column-level REVOKE and REVOKE GRANT OPTION FOR leave the model unchanged (over-approximation: never a false alarm)");
+    rep.assume("UPDATE/DELETE need only the matching privilege on their target (SELECT on the target for their own WHERE clause is not demanded)");
+    println!(
+        "C26: states={} transitions={} menu_evaluations={} ok_priv={} err_priv={} denied={} ok_unpriv={}",
+        states, transitions, evals, ok_p, err_p, denied, ok_u
+    );
+    println!("C26: never successful even when privileged: {:?}", never_ok);
+    println!("C26: never denied: {:?}", never_denied);
+    drop(stats);
+    rep.finish()
+}
+
+pub fn replay(case: &Value) -> i32 {
+    let hist: Vec<String> = case["history"].as_array().map(|a| a.iter().filter_map(|x| x.as_str().map(|s| s.to_string())).collect()).unwrap_or_default();
+    let sql = case["statement"].as_str().unwrap_or("").to_string();
+    let mut db = init_db();
+    for s in PRELUDE {
+        println!("prelude: {}", s);
+    }
+    println!("(security enabled, role ADMIN)");
+    for h in &hist {
+        let o = exec::exec(&mut db, h);
+        println!("{}\n   => {}", h, o.brief());
+    }
+    let before = observe(&db);
+    let mut c = db.clone();
+    c.set_role(Some("R1".to_string()));
+    println!("(role R1)");
+    let o = exec::exec(&mut c, &sql);
+    println!("{}\n   => {}", sql, o.brief());
+    c.set_role(Some("ADMIN".to_string()));
+    let after = observe(&c);
+    println!("tables/catalog changed: {}", after != before);
+    if after != before {
+        println!("   {}", obs::first_diff(&before, &after));
+    }
+    let alpha = admin_alphabet(true);
+    let (_, _, missing, _) = from_scratch(&alpha, &hist, &sql);
+    println!("privileges the history does not give R1 for this statement: {:?}", missing);
+    0
 }
